@@ -163,6 +163,8 @@ def spec_check(kind, rows, lf, ops, obs, impl, conf=None):
     for i, (op, o) in enumerate(zip(ops, obs)):
         if op[0] < 50:
             continue
+        if op[0] == 50 and len(op[1]) != kind.r_arity:
+            continue            # a request of the wrong size is refused by design (the shrinker can produce one)
         key = (op[0],) + tuple(tuple(x) if isinstance(x, list) else x for x in op[1:])
         res[key] = (i, o[0])
         if o[0][0] != 0:
@@ -697,6 +699,85 @@ def run_configured(chk, n, strata):
             strata[f"{label}-{kn}".replace("-", "_")] = len(cases)
 
 
+# ----------------------------------------------------------------------------- the domain column under another name
+RENAMED = ("tenant", "domain", "org")
+
+
+def renamed_model_text(col):
+    return ("[request_definition]\nr = sub, %s, obj, act\n\n[policy_definition]\np = sub, %s, obj, act\n\n"
+            "[role_definition]\ng = _, _, _\n\n[policy_effect]\ne = some(where (p.eft == allow))\n\n"
+            "[matchers]\nm = g(r.sub, p.sub, r.%s) && r.%s == p.%s && r.obj == p.obj && r.act == p.act\n" % ((col,) * 5))
+
+
+def renamed_check(col, prules, grules):
+    """the per-domain permission queries on a domains model whose policy definition calls the domain column `col`:
+    returns None or (query, answer, what).  Implementation level: the clauses are on the enforcer's own answers."""
+    m = casbin.Model()
+    m.load_model_from_text(renamed_model_text(col))
+    e = casbin.Enforcer(m)
+    e.add_policies([list(r) for r in prules])
+    e.add_grouping_policies([list(r) for r in grules])
+    users = sorted({r[0] for r in grules} | {r[1] for r in grules} | {r[0] for r in prules})
+    doms = sorted({r[2] for r in grules} | {r[1] for r in prules})
+    for d in doms:
+        for u in users:
+            try:
+                own = e.get_permissions_for_user_in_domain(u, d)
+                imp = e.get_implicit_permissions_for_user(u, d)
+            except Exception as exc:  # noqa
+                return (["permissions", u, d], repr(exc)[:200], "a per-domain permission query raised on a well-formed policy")
+            want = [list(r) for r in prules if r[0] == u and r[1] == d]
+            if sorted(map(tuple, own)) != sorted(map(tuple, want)):
+                return (["get_permissions_for_user_in_domain", u, d], own,
+                        "get_permissions_for_user_in_domain is not exactly the user's rules of that domain")
+            for r in imp:
+                if len(r) != 4 or r[1] != d or not e.enforce(u, r[1], r[2], r[3]):
+                    return (["get_implicit_permissions_for_user", u, d], imp,
+                            "get_implicit_permissions_for_user lists a permission that enforce refuses in that domain")
+            for r in prules:
+                if r[1] == d and e.enforce(u, d, r[2], r[3]) and \
+                        not any(x[2] == r[2] and x[3] == r[3] for x in imp):
+                    return (["get_implicit_permissions_for_user", u, d], imp,
+                            "enforce allows a request that get_implicit_permissions_for_user does not account for")
+    return None
+
+
+def run_renamed(chk, n, strata):
+    rng = chk.rng
+    subs, roles, doms, objs, acts = ["alice", "bob", "carol"], ["admin", "editor"], ["t1", "t2"], ["data1", "data2"], ["read", "write"]
+    cnt = 0
+    for i in range(n):
+        col = RENAMED[i % len(RENAMED)]
+        g = {(rng.choice(subs + roles), rng.choice(roles), rng.choice(doms)) for _ in range(rng.randint(1, 5))}
+        g = sorted(x for x in g if x[0] != x[1])
+        pr = sorted({(rng.choice(subs + roles), rng.choice(doms), rng.choice(objs), rng.choice(acts)) for _ in range(rng.randint(1, 6))})
+        if i % 4 == 0 and g:
+            # a role holding rules in BOTH domains, assigned in one of them only
+            role = g[0][1]
+            pr = sorted(set(pr) | {(role, "t1", "data1", "read"), (role, "t2", "data2", "write")})
+        cnt += 1
+        chk.traces += 1
+        bad = renamed_check(col, pr, g)
+        if bad:
+            chk.spec_fail(dict(layout="renamed-domain-column", stratum="renamed-domain-column", column=col,
+                               p_rules=[list(r) for r in pr], g_rules=[list(r) for r in g]),
+                          dict(query=bad[0], answer=bad[1]), "see 'what'", bad[2], None)
+            break
+    strata["renamed_domain_column"] = cnt
+
+
+def replay_renamed(chk, c):
+    import sys
+    bad = renamed_check(c["column"], [tuple(r) for r in c["p_rules"]], [tuple(r) for r in c["g_rules"]])
+    print("replay: domains model with the domain column named", c["column"], "; rules:", c["p_rules"], c["g_rules"])
+    if bad:
+        print("  violated:", bad[2], "at", bad[0], "answer", bad[1])
+        print(f"VIOLATION property={chk.prop} replay={chk.replay_file}")
+        sys.exit(1)
+    print("replay passes: the per-domain permission queries agree with the rules and with enforce on this policy")
+    sys.exit(0)
+
+
 def run(chk, n_random, max_g, max_p, cap, n_deep, n_conf):
     rng = chk.rng
     strata = chk.extra.setdefault("strata", {})
@@ -734,6 +815,7 @@ def run(chk, n_random, max_g, max_p, cap, n_deep, n_conf):
         run_stratum(chk, kind, cases, f"random-{kn}")
         strata[f"random_{kn}"] = len(cases)
     run_configured(chk, n_conf, strata)          # last: the random streams of the strata above stay as they were
+    run_renamed(chk, max(40, n_conf), strata)
     return full_cover
 
 
@@ -772,12 +854,18 @@ def main():
                        "get_users_for_role may also list names looked up before that match a user pattern holding the role"]
     chk.trusted = ["hand-written models coq/theories/{Policy,RoleGraph,Mgmt}.v tied by the differential history correspondence",
                    "the four graph-walking queries run under a 2 s CPU-time timer (subclass of casbin.Enforcer calling the real methods)"]
+    chk.rule += ("; (8) a domains model whose policy definition calls the domain column tenant / domain / org (real Enforcer, "
+                 "implementation level): get_permissions_for_user_in_domain is exactly the user's rules of that domain, every "
+                 "permission of get_implicit_permissions_for_user(user, domain) is allowed by enforce there, and every allowed "
+                 "request is accounted for")
     chk.build(translators=["rbacapi"], oracle_name="Mgmt")
     if chk.replay_file:
         import json
         c = (json.load(open(chk.replay_file)).get("case") or {})
         if c.get("layout") == "configured":
             return replay_conf(chk)
+        if c.get("layout") == "renamed-domain-column":
+            return replay_renamed(chk, c)
         if c.get("layout") == "blocks":
             if not c.get("model_compared"):
                 chk.oracle = None            # out-of-band store edits are outside the Mgmt model
